@@ -34,19 +34,55 @@ NEEDS = {
  'C20r2/A': 'a Connection/Upgrade list whose matching token is followed by whitespace before the comma (`Upgrade , keep-alive`)',
  'C20r2/B': 'a Sec-WebSocket-Key with octets that are not well-formed UTF-8',
 }
-for key, needs in NEEDS.items():
+NEEDS3 = {
+ 'C01r3/A': 'a request segment containing an encoded percent sign followed by two hex digits (`%2541`): decoded twice before matching',
+ 'C01r3/B': 'an endpoint registered (ApiEndpoint::new) with an extension method that is not upper case (`purge`)',
+ 'C02r3/A': 'tag policy ExactlyOne and an endpoint without any tag',
+ 'C02r3/B': 'a trailing wildcard variable and a query parameter of the same name',
+ 'C03r3/A': 'dots or nothing surrounded by percent-encoded whitespace (`..%20`, `%20`): trimmed after the router screened the segment',
+ 'C03r3/B': 'a request for exactly the base path of a wildcard route, with and without a trailing slash',
+ 'C04r3/A': 'a version header carrying a pre-release of the version at which a path changes its method set',
+ 'C04r3/B': 'a request path containing `%25XX` (`/%2566oo`)',
+ 'C05r3/A': 'a request version with a pre-release tag against any bounded range (Cargo requirement semantics instead of semver precedence)',
+ 'C05r3/B': 'a version header with an octet outside visible ASCII: answered 500',
+ 'C06r3/A': '`from A` next to `from B until C` with A < B on one method and path',
+ 'C06r3/B': 'an API with a HEAD or OPTIONS endpoint',
+ 'C08r3/A': 'a named type with an `example` used both as a query/path/header member and in a body',
+ 'C08r3/B': 'a response header whose type is a newtype around another named type',
+ 'C09r3/A': 'a TLS server and two connections whose handshakes complete in another order than they were accepted',
+ 'C09r3/B': 'a request header field sent on two or more lines',
+ 'C10r3/A': 'a non-string path parameter and a long segment with a multi-byte character across byte 256 of the error text',
+ 'C10r3/B': 'a page token whose JSON is followed by more data',
+ 'C11r3/A': 'a multipart body between limit+1 and limit+len(boundary)+6 bytes',
+ 'C11r3/B': 'a server whose default_request_body_max_bytes is 0 and an endpoint without an override',
+ 'C12r3/A': 'a typed response whose JSON is longer than 256 KiB',
+ 'C12r3/B': 'a declared-headers struct that is zero-sized (fields are marker types serialising to constants)',
+ 'C13r3/A': 'an error whose external message is empty while the internal one is not (fields are public)',
+ 'C13r3/B': 'an error whose error code is the empty string',
+ 'C14r3/A': 'a token whose decoded bytes are a valid token document followed by anything',
+ 'C14r3/B': 'a valid token surrounded by whitespace (also: an over-long run of whitespace after a 512-byte token)',
+ 'C15r3/A': 'a next-page request whose query string is longer than 512 bytes (token near the documented maximum plus a limit parameter)',
+ 'C15r3/B': 'a scan that needs more than 10000 requests, through the test_util::iter_collection client helper',
+ 'C20r3/A': 'a TLS server and a channel endpoint: the TLS accept loop serves connections without upgrade support',
+ 'C20r3/B': 'a channel handler using read_exact on a message that arrives in two or more TCP segments',
+}
+import sys
+WAVE3 = '--wave3' in sys.argv
+items = NEEDS3.items() if WAVE3 else NEEDS.items()
+for key, needs in items:
     idr, ab = key.split('/')
     pid = idr[:-2]
     src = f'{V}/.build/incoming/{key}'
-    dst = f'{V}/seeded/{pid}-{"C" if ab == "A" else "D"}'
+    dst = f'{V}/seeded/{pid}-{("E" if ab == "A" else "F") if WAVE3 else ("C" if ab == "A" else "D")}'
     os.makedirs(dst, exist_ok=True)
     for f in ('patch.diff', 'demo.rs', 'demo_howto.md', 'notes.md'):
         shutil.copyfile(f'{src}/{f}', f'{dst}/{f}')
+    if os.path.exists(f'{src}/patch.rebased.diff'): shutil.copyfile(f'{src}/patch.rebased.diff', f'{dst}/patch.diff')
     conf = json.load(open(f'{V}/.build/confirm/{idr}_{ab}.json'))
     assert conf['applies'] and conf['demo_on_head_rc'] == 0 and conf['demo_with_patch_rc'] != 0 and conf['suite_with_patch_ok'], conf
     notes = open(f'{src}/notes.md').read()
     summary = ' '.join(notes.split())[:300]
-    meta = {'property': pid, 'variant': 'C' if ab == 'A' else 'D', 'wave': 2,
+    meta = {'property': pid, 'variant': os.path.basename(dst).split('-')[1], 'wave': 3 if WAVE3 else 2,
             'origin': 'fresh sub-agent given only the property text (plus a note on which places earlier seeders had already changed) and a scratch worktree of /repo',
             'base_commit': subprocess.run(['git', '-C', '/repo', 'rev-parse', '--short', 'HEAD'], capture_output=True, text=True).stdout.strip(),
             'demo_test': f'dropshot/tests/{conf["demo_test"]}.rs (copy demo.rs there; cargo nextest run --offline -p dropshot --test {conf["demo_test"]})',
